@@ -591,6 +591,8 @@ def random_trace(seed, tid, workdir, props):
             tau = rng.uniform(-50, 50, 3) * rng.choice([0.0, 0.1, 1.0])
             ref2 = refmol.copy()
             ref2.atoms_positions = pos @ R.T + tau
+            if rng.random() < 0.3:
+                m.scale_factor = s          # the public attribute written again with the value it has: nothing may change
             out2 = m(ref2).atoms_positions
             fin = bool(np.isfinite(out2).all())
             exp = lawpt @ R.T + tau
